@@ -11,10 +11,11 @@ CONSTANTS
   MRSet = {0, 1, 2}
   MaxCuts = 2
   ClassSet = {"bnd", "field", "name", "id", "idfull", "data", "datafull"}
-  AnswerSet = {"terr", "ok", "5xx", "404"}
+  AnswerSet = {"terr", "ok", "503", "404"}
+  TailSet = {"good", "stuck"}
   FixScanner = TRUE
   FixCursor = TRUE
   Fix5xx = TRUE
-INVARIANTS TypeOK InvExactlyOnce InvNoTruncated InvResumeCursor InvRealResponse InvCleanFailure
+INVARIANTS TypeOK InvExactlyOnce InvNoTruncated InvResumeCursor InvRealResponse InvCleanFailure InvBoundedRetries
 PROPERTIES Terminates
 CHECK_DEADLOCK FALSE
